@@ -668,7 +668,7 @@ pub fn never_existing_namespace() -> NamespaceId {
     NamespaceSecret::from_bytes(&[0x4D; 32]).id()
 }
 
-fn noise_entry(a: u8, k: u8, c: u8) -> SignedEntry {
+pub fn noise_entry(a: u8, k: u8, c: u8) -> SignedEntry {
     let key: Vec<u8> = match k % 5 {
         0 => vec![],
         1 => b"a".to_vec(),
